@@ -3,6 +3,7 @@
 //   drv_c05 freeze-big <dir> <seed>     (run ONCE, by hand, to create /verif/corpus_big: size-covering streams, see run_freeze_big)
 //   drv_c05 freeze-bounds <dir> <seed>  (run ONCE, by hand: streams on the representation boundaries, appended to /verif/corpus_big)
 //   drv_c05 freeze-handles <dir> <seed> <n>  (run ONCE, by hand: Edgebreaker streams with two topology-split events at one symbol, appended to /verif/corpus_big)
+//   drv_c05 freeze-lkq <dir> <seed>     (run ONCE, by hand: bitstream-2.2 kd-tree clouds of the float tree method, appended to /verif/corpus)
 //   drv_c05 freeze-kd <dir> <seed>      (run ONCE, by hand: small kD-tree clouds at the highest tree level, appended to /verif/corpus)
 //   drv_c05 freeze-skip <dir>           (run ONCE per corpus directory, by hand: digests of the decodes with the attribute transform skipped)
 //   drv_c05 freeze-wide-charts <dir> <seed>  (run ONCE, by hand: 5-byte varints, textured grids cut into UV charts; appended to /verif/corpus_big)
@@ -13,6 +14,8 @@
 #include <fstream>
 #include "geom.h"
 #include "draco/core/varint_decoding.h"
+#include "draco/core/varint_encoding.h"
+#include "draco/compression/point_cloud/algorithms/float_points_tree_encoder.h"
 using namespace draco;
 using namespace vg;
 static vrt::Out out;
@@ -207,6 +210,43 @@ static int run_freeze_kd(const std::string &dir, uint64_t seed) {
     }
   }
   fprintf(stderr, "froze %ld kd streams\n", k);
+  return 0;
+}
+
+// Point clouds of bitstream 2.2 whose kd-tree attribute data uses the float ("quantization") method: the path FloatPointsTreeDecoder serves.  No
+// encoder of this library version writes the container any more, the decoder still reads it: the tree data comes from the library's own
+// FloatPointsTreeEncoder, the container around it is written by hand.  The stream names its number of points four times (geometry header, attribute
+// data, float tree header, integer kd-tree payload).  Appended to <dir>.
+static int run_freeze_lkq(const std::string &dir, uint64_t seed) {
+  vrt::Rng r(seed);
+  std::ofstream idx(dir + "/index.ndjson", std::ios::app);
+  long k = 0;
+  for (int np : {1, 5, 20, 70}) {
+    for (int level : {0, 3, 6}) {
+      std::vector<Point3f> pts;
+      for (int i = 0; i < np; ++i) pts.push_back(Point3f((float)r.unit() * 10.f - 5.f, (float)r.unit() * 4.f, (float)(i % 7)));
+      FloatPointsTreeEncoder enc(KDTREE, 6 + (uint32_t)level, (uint32_t)level);
+      if (!enc.EncodePointCloud(pts.begin(), pts.end())) continue;
+      EncoderBuffer b;
+      b.Encode("DRACO", 5);
+      b.Encode((uint8_t)2); b.Encode((uint8_t)2); b.Encode((uint8_t)0); b.Encode((uint8_t)1); b.Encode((uint16_t)0);
+      b.Encode((uint32_t)np);
+      b.Encode((uint8_t)1);
+      EncodeVarint<uint32_t>(1, &b);
+      b.Encode((uint8_t)0); b.Encode((uint8_t)9); b.Encode((uint8_t)3); b.Encode((uint8_t)0); EncodeVarint<uint32_t>(0, &b);
+      b.Encode((uint8_t)0);            // kKdTreeQuantizationEncoding
+      b.Encode((uint8_t)level);
+      b.Encode((uint32_t)np);
+      b.Encode(enc.buffer()->data(), enc.buffer()->size());
+      Decoded dd = decode(b.data(), b.size());
+      if (!dd.ok) { fprintf(stderr, "skip: does not decode (%s)\n", dd.err.c_str()); continue; }
+      char name[64]; snprintf(name, sizeof name, "q%04ld.drc", k++);
+      std::ofstream f(dir + "/" + name, std::ios::binary); f.write(b.data(), b.size());
+      idx << "{\"file\":\"" << name << "\",\"digest\":" << h64(geom_digest(*dd.pc, dd.is_mesh)) << ",\"np\":" << dd.pc->num_points() << ",\"nf\":0,\"gt\":\"legacy\",\"ver\":514"
+          << ",\"what\":\"2.2 kd-tree cloud, float tree method, level " << level << "\",\"bytes\":" << b.size() << "}\n";
+    }
+  }
+  fprintf(stderr, "froze %ld legacy float-tree streams\n", k);
   return 0;
 }
 
@@ -470,6 +510,7 @@ int main(int argc, char **argv) {
   if (argc >= 4 && !strcmp(argv[1], "freeze-wide-charts")) return run_freeze_wide_charts(argv[2], strtoull(argv[3], 0, 10));
   if (argc >= 5 && !strcmp(argv[1], "freeze-islands")) return run_freeze_islands(argv[2], strtoull(argv[3], 0, 10), atol(argv[4]));
   if (argc >= 4 && !strcmp(argv[1], "freeze-bounds")) return run_freeze_bounds(argv[2], strtoull(argv[3], 0, 10));
+  if (argc >= 4 && !strcmp(argv[1], "freeze-lkq")) return run_freeze_lkq(argv[2], strtoull(argv[3], 0, 10));
   if (argc >= 4 && !strcmp(argv[1], "freeze-kd")) return run_freeze_kd(argv[2], strtoull(argv[3], 0, 10));
   if (argc >= 3 && !strcmp(argv[1], "freeze-skip")) return run_freeze_skip(argv[2]);
   if (argc >= 3 && !strcmp(argv[1], "check")) return run_check(argv[2]);
